@@ -1,5 +1,5 @@
 """
-BOUNDED stand-in for the annotation builder (C15, C16) — never counted as proved.
+BOUNDED stand-in for the annotation builder (C15, C16, C17 pool flags) — never counted as proved.
 
 Used when a sidecar contract of the builder no longer fits the code it is anchored in (a refactoring changed the
 representation the invariants talk about): the verifier then cannot decide the function, and this harness runs the *real*
@@ -109,8 +109,9 @@ EXPECT = {
 # turning a description into real classes
 # ----------------------------------------------------------------------------------------------------------------------
 class Materialised:
-    def __init__(self, spec, tag, defect=None, at=None):
+    def __init__(self, spec, tag, defect=None, at=None, modes=None):
         self.spec, self.tag, self.defect, self.at = spec, tag, defect, at
+        self.modes = modes or {}          # name -> 'thread' (sync node) | 'process' (sync node with the process tag)
         self.cls = {}
         order = self._topo()
         for name in order:
@@ -181,7 +182,8 @@ class Materialised:
             anns['generic_param'] = (InputGeneric if defect == 'generic-InputGeneric' else GenericInput)(target)
         if defect == 'noannotations':
             names, anns = ['unannotated_only'], {}
-        src = f"async def process(self, *, {', '.join(names)}):\n    return 0\n" if names else "async def process(self):\n    return 0\n"
+        kw = 'def' if self.modes.get(name) else 'async def'
+        src = f"{kw} process(self, *, {', '.join(names)}):\n    return 0\n" if names else f"{kw} process(self):\n    return 0\n"
         exec(src, ns)                                     # noqa: S102  (generated from the fixed templates above)
         fn = ns['process']
         fn.__annotations__ = dict(anns)
@@ -191,6 +193,9 @@ class Materialised:
         if defect == 'rec-dest-without-protocol':
             base = ProcessorBase
         body = dict(name=f'{self.tag}_{name}'.lower(), process=fn, __module__='bounded_builder')
+        if self.modes.get(name) == 'process':
+            from ml_pipeline_engine.node import NodeTag
+            body['tags'] = (NodeTag.process,)
         if defect == 'nobase':
             return type(name, (), body)
         if defect == 'noprocess':
@@ -400,8 +405,40 @@ def main():
                 except Exception as e:   # noqa: BLE001
                     failures.append(dict(property='C16', template=tname, case=f'{defect} at {at}',
                                          observed=f'{type(e).__name__}: {e}', expected=want.__name__))
+    # ---- C17: the pool flags of the built DAG say exactly which pools its nodes need
+    from ml_pipeline_engine.dag_builders.annotation import build_dag_single
+    for tname, spec, inp, out in templates():
+        seen_nodes, *_ = reachable(spec, inp, out)
+        names = sorted(seen_nodes)
+        variants = [{}] + [{n: m} for n in names for m in ('thread', 'process')] + [{names[0]: 'thread', names[-1]: 'process'}]
+        for modes in variants:
+            tag = f't{next(counter)}'
+            n_cases += 1
+            try:
+                m = Materialised(spec, tag, modes=modes)
+                dag = build_dag(input_node=m.cls[inp], output_node=m.cls[out])
+            except Exception as e:   # noqa: BLE001
+                failures.append(dict(property='C17', template=tname, case=f'sync nodes {modes}', observed=f'{type(e).__name__}: {e}',
+                                     expected='builds successfully'))
+                continue
+            want_thr = any(v == 'thread' for k, v in modes.items() if k in seen_nodes)
+            want_proc = any(v == 'process' for k, v in modes.items() if k in seen_nodes)
+            if (bool(dag.is_thread_pool_needed), bool(dag.is_process_pool_needed)) != (want_thr, want_proc):
+                failures.append(dict(property='C17', template=tname, case=f'sync nodes {modes}',
+                                     observed=f'is_thread_pool_needed={dag.is_thread_pool_needed} is_process_pool_needed={dag.is_process_pool_needed}',
+                                     expected=f'is_thread_pool_needed={want_thr} is_process_pool_needed={want_proc}'))
+    for mode in (None, 'thread', 'process'):
+        tag = f't{next(counter)}'
+        n_cases += 1
+        m = Materialised(P(Only=([('x', ('raw',))],)), tag, modes={'Only': mode} if mode else {})
+        dag = build_dag_single(m.cls['Only'])
+        if (bool(dag.is_thread_pool_needed), bool(dag.is_process_pool_needed)) != (mode == 'thread', mode == 'process'):
+            failures.append(dict(property='C17', template='single node', case=f'build_dag_single of a {mode or "coroutine"} node',
+                                 observed=f'is_thread_pool_needed={dag.is_thread_pool_needed} is_process_pool_needed={dag.is_process_pool_needed}',
+                                 expected=f'is_thread_pool_needed={mode == "thread"} is_process_pool_needed={mode == "process"}'))
     result = dict(harness='bounded/builder.py', bound='16 templates (<= 9 node classes, every mark kind, shared and nested '
-                  'constructs) x parameter orders (<= 24 each) x single-defect mutations (9 kinds, every applicable position)',
+                  'constructs) x parameter orders (<= 24 each) x single-defect mutations (9 kinds, every applicable position); pool flags: every '
+                  'template x every node as a sync / process-tagged node, and single-node builds',
                   cases=n_cases, failures=failures)
     if '--json' in sys.argv:
         with open(sys.argv[sys.argv.index('--json') + 1], 'w') as f:
